@@ -3,6 +3,8 @@ import UsualProofs.C05.Hmac
 import UsualProofs.C05.Sponge
 import UsualProofs.C05.Sha3
 import UsualProofs.C05.ChaCha
+import UsualProofs.C05.KeccakPaths
+import UsualProofs.C05.Prng
 import Usual.C05.Digests
 /-! Property theorems for C05 — cryptographic primitives equal their standards for every
     input and every chunking.
@@ -18,7 +20,8 @@ import Usual.C05.Digests
     * that `md5Compress`, `sha1Compress`, `sha256Compress`, `sha512Compress`, `Keccak.fBytes`,
       `ChaCha.block` are the functions printed in the standards — transcription, pinned by the
       standards' vectors (UsualProofs/C05/Vectors.lean) and the hashlib cross-check;
-    * that the three C code paths of keccak_f compute the same permutation — correspondence. -/
+    The three C code paths of keccak_f ARE covered (`keccak_paths_equal`): the two unrolled bodies are
+    translated statement by statement from keccak.c on every run (Usual/Gen/C05Keccak.lean). -/
 namespace UsualProps.C05
 open Usual.C05
 
@@ -239,6 +242,131 @@ example (f : Keccak.Bytes → Keccak.Bytes) (key a b : List UInt8) :
       = Hmac.hmacSpec (fun m => Keccak.sponge f 136 0x06 m 32) 136 key (a ++ b) := by
   have := hmac_sha3_chunking f 512 32 0x06 (by decide) (by decide) (by decide) key [a, b]
   simpa using this
+
+/-! ### the three code paths of keccak_f -/
+
+/-- The three Keccak code paths compute the same permutation, Keccak-f[1600] as FIPS 202 §3.2-3.3
+    defines it (`Keccak.specF`: θ ρ π χ ι on lanes `A[x,y]`, 24 rounds, round constants from the table
+    that is itself checked against the LFSR definition), for EVERY state:
+    * `Keccak.f64` — the default build: the loop over the four-round unrolled in-place body, each round
+      translated statement by statement from keccak.c (`Usual.Gen.C05.f64Round0..3`);
+    * `Keccak.keccakF` — the KECCAK_SMALL build: the compact loops over the `RhoRot`/`PiLane` tables
+      (this is the function the sponge model and the correspondence driver run);
+    * `Keccak.f32` — the KECCAK_32BIT build: unrolled in-place rounds on bit-interleaved 32-bit words
+      (`Usual.Gen.C05.f32Round0..3`, constants `RoundConstants32`), seen through the lane access the
+      build uses: `xor_lane` interleaves (`interleave32`), `extract` de-interleaves.
+    The per-round equalities are closed by the kernel alone; `bv_decide` (UsualProofs/Bridge/C05.lean) is
+    used only for the bit-level facts about the interleaving network. -/
+theorem keccak_paths_equal (s : Keccak.L25 UInt64) :
+    Keccak.f64 s = Keccak.specF s ∧
+    Keccak.keccakF s.toArray = (Keccak.specF s).toArray ∧
+    Keccak.f32 (Keccak.interleaveAll s) = Keccak.interleaveAll (Keccak.specF s) ∧
+    Keccak.deinterleaveAll (Keccak.f32 (Keccak.interleaveAll s)) = Keccak.specF s :=
+  ⟨Keccak.f64_eq_specF s, Keccak.keccakF_eq_specF s, Keccak.f32_eq_specF s,
+   by rw [Keccak.f32_eq_specF, Keccak.deinterleaveAll_interleaveAll]⟩
+
+/-- the part of `keccak_paths_equal` about the two 64-bit builds, restated on its own because its proof
+    needs no `bv_decide` axiom at all (kernel only) -/
+theorem keccak_paths_equal_64 (s : Keccak.L25 UInt64) :
+    Keccak.f64 s = Keccak.specF s ∧ Keccak.keccakF s.toArray = (Keccak.specF s).toArray :=
+  ⟨Keccak.f64_eq_specF s, Keccak.keccakF_eq_specF s⟩
+
+example : Keccak.keccakF (Array.replicate 25 0) = (Keccak.specF (Keccak.L25.ofFn fun _ => 0)).toArray :=
+  (keccak_paths_equal_64 (Keccak.L25.ofFn fun _ => 0)).2
+
+example : Keccak.f64 (Keccak.L25.ofFn fun i => UInt64.ofNat (i * 0x0101010101010101))
+    = Keccak.specF (Keccak.L25.ofFn fun i => UInt64.ofNat (i * 0x0101010101010101)) :=
+  (keccak_paths_equal _).1
+
+/-- Lane access of the KECCAK_32BIT build is transparent: the networks of `xor_lane` and `extract` are
+    inverse bijections between 64-bit lanes and word pairs, xor-ing a value into a stored lane is xor
+    on the lane (`xor_lane`), and the all-zero state (`keccak_init`, `keccak_forget`'s memset) is the
+    all-zero lane.  Together with `keccak_paths_equal` every sponge operation of the 32-bit build acts on
+    the de-interleaved view exactly as the other builds act on their lanes. -/
+theorem keccak32_lane_access (a b : UInt64) (w0 w1 : UInt32) :
+    Usual.Gen.C05.deinterleave32 (Usual.Gen.C05.interleave32 a).1 (Usual.Gen.C05.interleave32 a).2 = a ∧
+    Usual.Gen.C05.interleave32 (Usual.Gen.C05.deinterleave32 w0 w1) = (w0, w1) ∧
+    Usual.Gen.C05.interleave32 (a ^^^ b)
+      = ((Usual.Gen.C05.interleave32 a).1 ^^^ (Usual.Gen.C05.interleave32 b).1,
+         (Usual.Gen.C05.interleave32 a).2 ^^^ (Usual.Gen.C05.interleave32 b).2) ∧
+    Usual.Gen.C05.interleave32 0 = (0, 0) :=
+  ⟨Keccak.deinterleave32_interleave32 a, Keccak.interleave32_deinterleave32 w0 w1,
+   Keccak.interleave32_xor a b, by decide⟩
+
+example : Usual.Gen.C05.interleave32 0x8000000000000003 = (0x00000001, 0x80000001) := by decide
+
+/-! ### keccak_prng -/
+
+/-- `keccak_prng_extract` refuses (returns false, context untouched) until data has been added; once it
+    has, ANY sequence of extract calls delivers one contiguous stream: the sponge squeezed from the
+    context as padded (pad byte 0x01) when extraction started. -/
+theorem prng_extract_stream (f : Keccak.Bytes → Keccak.Bytes) (p : Sha3.Prng) (ns : List Nat) :
+    (p.haveData = false → ∀ n, Sha3.prngExtract f p n = (none, p)) ∧
+    (p.haveData = true → p.ctx.pos < p.ctx.rbytes →
+      (Sha3.prngExtractMany f p ns).1 = (Keccak.squeeze f (Sha3.prngOutCtx f p) ns.sum).1) :=
+  ⟨fun h n => Sha3.prngExtract_none f p n h, fun h hw => Sha3.prng_stream f ns p h hw⟩
+
+example (f : Keccak.Bytes → Keccak.Bytes) :
+    (Sha3.prngExtractMany f { ctx := { st := List.replicate 200 1, pos := 3, rbytes := 168 }, extracting := false,
+                              haveData := true } [5, 0, 300]).1
+      = (Keccak.squeeze f (Keccak.pad f { st := List.replicate 200 1, pos := 3, rbytes := 168 } [0x01]) 305).1 :=
+  (prng_extract_stream f _ [5, 0, 300]).2 rfl (by decide)
+
+/-- Seeding: `keccak_prng_init; keccak_prng_add_data*` in any chunking, then any sequence of extract calls
+    = `SPONGE[f, pad10*1, r](data ‖ 0x01-suffix, total length)`; with no (or only empty) data every extract
+    is refused. -/
+theorem prng_seed_stream (f : Keccak.Bytes → Keccak.Bytes) (cap : Nat) (h8 : cap % 8 = 0) (hlo : 8 ≤ cap)
+    (hhi : cap ≤ 1592) (p0 : Sha3.Prng) (hp : Sha3.prngInit cap = some p0) (chunks : List Keccak.Bytes) (ns : List Nat) :
+    (chunks.flatten = [] → ∀ n, (Sha3.prngExtract f (chunks.foldl (Sha3.prngAddData f) p0) n).1 = none) ∧
+    (chunks.flatten ≠ [] →
+      (Sha3.prngExtractMany f (chunks.foldl (Sha3.prngAddData f) p0) ns).1
+        = Keccak.sponge f ((1600 - cap) / 8) 0x01 chunks.flatten ns.sum) := by
+  have hr : 0 < (1600 - cap) / 8 := by omega
+  rw [Sha3.prngInit_valid cap h8 hlo hhi] at hp
+  injection hp with hp
+  subst hp
+  obtain ⟨c1, c2, c3⟩ := Sha3.prng_foldl_add f chunks
+    { ctx := { st := List.replicate 200 0, pos := 0, rbytes := (1600 - cap) / 8 }, extracting := false, haveData := false }
+    rfl (by simpa [Keccak.WF] using hr)
+  simp only [Bool.false_or] at c3
+  obtain ⟨q, hq⟩ : ∃ q, q = chunks.foldl (Sha3.prngAddData f)
+      { ctx := { st := List.replicate 200 0, pos := 0, rbytes := (1600 - cap) / 8 }, extracting := false,
+        haveData := false } := ⟨_, rfl⟩
+  rw [← hq] at c1 c2 c3 ⊢
+  constructor
+  · intro hnil n
+    have hd : q.haveData = false := by rw [c3, hnil]; rfl
+    rw [Sha3.prngExtract_none f _ n hd]
+  · intro hne
+    have hl : chunks.flatten.length > 0 := List.length_pos_iff.mpr hne
+    have hd : q.haveData = true := by rw [c3]; exact decide_eq_true hl
+    have hw : Keccak.WF q.ctx := by
+      rw [c1]; exact Keccak.absorb_wf f _ _ (by simpa [Keccak.WF] using hr)
+    rw [Sha3.prng_stream f ns _ hd hw]
+    unfold Sha3.prngOutCtx
+    rw [c2, c1]
+    simp only [Bool.false_eq_true, ↓reduceIte]
+    exact Keccak.hash_eq_sponge f _ hr 0x01 chunks.flatten ns.sum
+
+example (f : Keccak.Bytes → Keccak.Bytes) (p0 : Sha3.Prng) (hp : Sha3.prngInit 256 = some p0) :
+    (Sha3.prngExtractMany f ([[1, 2], [], [3]].foldl (Sha3.prngAddData f) p0) [16, 16]).1
+      = Keccak.sponge f 168 0x01 [1, 2, 3] 32 :=
+  (prng_seed_stream f 256 (by decide) (by decide) (by decide) p0 hp [[1, 2], [], [3]] [16, 16]).2 (by decide)
+
+/-- Reseeding as the code has it: data added while extracting restarts absorption at position 0 of the
+    CURRENT state (`keccak_rewind`, no re-initialisation), in any chunking; the next extraction pads again.
+    Data added while not extracting continues the absorption where it stood. -/
+theorem prng_reseed (f : Keccak.Bytes → Keccak.Bytes) (p : Sha3.Prng) (data : Keccak.Bytes) :
+    (Sha3.prngAddData f p data).ctx = Keccak.absorb f (if p.extracting then Keccak.rewind p.ctx else p.ctx) data ∧
+    (Sha3.prngAddData f p data).extracting = false ∧
+    (Sha3.prngAddData f p data).haveData = (p.haveData || decide (data.length > 0)) :=
+  Sha3.prngAddData_ctx f p data
+
+example (f : Keccak.Bytes → Keccak.Bytes) :
+    (Sha3.prngAddData f { ctx := { st := List.replicate 200 9, pos := 77, rbytes := 136 }, extracting := true,
+                          haveData := true } [1, 2, 3]).ctx
+      = Keccak.absorb f { st := List.replicate 200 9, pos := 0, rbytes := 136 } [1, 2, 3] :=
+  (prng_reseed f _ [1, 2, 3]).1
 
 /-! ### ChaCha20 (generic in the block function) -/
 
